@@ -29,3 +29,25 @@ def validate(module, events, batch=4000, timeout=1800, cfg=None):
         rejects += res["rows"]["REJECT"]
         gen += res["generated"]; dist += res["distinct"]; wall += res["wall_s"]
     return rejects, {"generated": gen, "distinct": dist, "wall_s": wall}
+
+
+def validate_par(module, events, batch=20000, timeout=1800, cfg=None, workers=16):
+    """Independent events: every event is an initial state of the trace spec, one verdict step each.
+    All events consumed <=> TLC found exactly 2*N distinct states (checked)."""
+    rejects, gen, dist, wall = [], 0, 0, 0.0
+    for k in range(0, len(events), batch):
+        chunk = events[k:k + batch]
+        d = tlc.scratch_dir("trace_")
+        path = os.path.join(d, "trace.json")
+        try:
+            with open(path, "w") as f:
+                json.dump(chunk, f)
+            res = tlc.run(module, cfg=cfg or module, workers=workers, env={"TRACE_FILE": path},
+                          timeout=timeout, want=("REJECT",))
+        finally:
+            shutil.rmtree(d, ignore_errors=True)
+        if res["distinct"] != 2 * len(chunk):
+            raise Machinery("trace spec %s: %d distinct states for %d events" % (module, res["distinct"], len(chunk)))
+        rejects += res["rows"]["REJECT"]
+        gen += res["generated"]; dist += res["distinct"]; wall += res["wall_s"]
+    return rejects, {"generated": gen, "distinct": dist, "wall_s": wall}
